@@ -120,5 +120,510 @@ theorem lexLe_drop_iff {xs ys : List Int} {i : Nat} (hx : i < xs.length) (hy : i
   rw [List.drop_eq_getElem_cons hx, List.drop_eq_getElem_cons hy]
   simp [lexLe, getI, List.getD, List.getElem?_eq_getElem hx, List.getElem?_eq_getElem hy]
 
+/-! ### the final pruning `x_q ≤ y_q` / `x_q < y_q` -/
+
+def kOf (s : Bool) : Int := if s then 1 else 0
+
+/-- `r` is a sound answer for the set of pairs of the box `(x, y)` that satisfy `P` -/
+structure SoundRes (P : List Int → List Int → Prop) (x y : Box) (r : Status × Box × Box) : Prop where
+  ok : r.1 ≠ .inc → Box.le r.2.1 x ∧ Box.le r.2.2 y ∧ Box.Nonempty r.2.1 ∧ Box.Nonempty r.2.2 ∧
+        ∀ xs ys, inBox xs x → inBox ys y → P xs ys → inBox xs r.2.1 ∧ inBox ys r.2.2
+  inc : r.1 = .inc → ∀ xs ys, inBox xs x → inBox ys y → ¬ P xs ys
+
+theorem SoundRes.same {P : List Int → List Int → Prop} {x y : Box} {st : Status} (hst : st ≠ .inc)
+    (hx : x.Nonempty) (hy : y.Nonempty) : SoundRes P x y (st, x, y) :=
+  ⟨fun _ => ⟨Box.le_refl _, Box.le_refl _, hx, hy, fun _ _ h1 h2 _ => ⟨h1, h2⟩⟩, fun h => absurd h hst⟩
+
+theorem SoundRes.trans {P Q : List Int → List Int → Prop} {x y x' y' : Box} {r : Status × Box × Box}
+    (h : SoundRes P x' y' r) (hx : Box.le x' x) (hy : Box.le y' y)
+    (hk : ∀ xs ys, inBox xs x → inBox ys y → Q xs ys → inBox xs x' ∧ inBox ys y' ∧ P xs ys) :
+    SoundRes Q x y r := by
+  refine ⟨fun hst => ?_, fun hst xs ys h1 h2 hq => ?_⟩
+  · obtain ⟨a, b, c, d, e⟩ := h.ok hst
+    refine ⟨Box.le_trans a hx, Box.le_trans b hy, c, d, fun xs ys h1 h2 hq => ?_⟩
+    obtain ⟨h1', h2', hp⟩ := hk xs ys h1 h2 hq
+    exact e xs ys h1' h2' hp
+  · obtain ⟨h1', h2', hp⟩ := hk xs ys h1 h2 hq
+    exact h.inc hst xs ys h1' h2' hp
+
+theorem lexEnforce_sound (x y : Box) (q : Nat) (s : Bool) (hqx : q < x.length) (hqy : q < y.length)
+    (hx : x.Nonempty) (hy : y.Nonempty) :
+    SoundRes (fun xs ys => getI xs q + kOf s ≤ getI ys q) x y (lexEnforce x y q s) := by
+  have hxq := Box.nonempty_get hx q hqx
+  have hyq := Box.nonempty_get hy q hqy
+  cases s <;> simp only [lexEnforce, kOf, ↓reduceIte, Bool.false_eq_true] <;>
+  · split
+    · refine ⟨fun h => by simp at h, fun _ xs ys h1 h2 hp => ?_⟩
+      have := inBox_get q h1 hqx; have := inBox_get q h2 hqy
+      simp at *; omega
+    · split
+      · refine ⟨fun h => by simp at h, fun _ xs ys h1 h2 hp => ?_⟩
+        have := inBox_get q h1 hqx; have := inBox_get q h2 hqy
+        simp at *; omega
+      · rename_i h1 h2
+        refine ⟨fun _ => ⟨le_set ?_ ?_, le_set ?_ ?_, nonempty_set hx ?_, nonempty_set hy ?_, fun xs ys h1 h2 hp => ?_⟩, ?_⟩
+        · simp
+        · simp; omega
+        · simp; omega
+        · simp
+        · simp at h1 ⊢; omega
+        · simp at h2 ⊢; omega
+        · have := inBox_get q h1 hqx; have := inBox_get q h2 hqy
+          refine ⟨inBox_set h1 ?_, inBox_set h2 ?_⟩
+          · simp at *; omega
+          · simp at *; omega
+        · intro h; simp at h; split at h <;> cases h
+
+theorem lexEnforce_ent (x y : Box) (q : Nat) (s : Bool) (hqx : q < x.length) (hqy : q < y.length)
+    (h : (lexEnforce x y q s).1 = .ent) (xs ys : List Int)
+    (h1 : inBox xs (lexEnforce x y q s).2.1) (h2 : inBox ys (lexEnforce x y q s).2.2) :
+    getI xs q + kOf s ≤ getI ys q := by
+  revert h h1 h2
+  cases s <;> simp only [lexEnforce, kOf, ↓reduceIte, Bool.false_eq_true] <;>
+  · split
+    · intro h; simp at h
+    · split
+      · intro h; simp at h
+      · intro h h1 h2
+        have a := inBox_get q h1 (by simpa using hqx)
+        have b := inBox_get q h2 (by simpa using hqy)
+        simp only [getDom_set, hqx, hqy, and_self, ↓reduceIte] at a b
+        simp at h
+        omega
+
+/-- a `consistent` answer of the final pruning leaves `x_q`, `y_q` not both instantiated -/
+theorem lexEnforce_cons (x y : Box) (q : Nat) (s : Bool) (hqx : q < x.length) (hqy : q < y.length)
+    (h : (lexEnforce x y q s).1 = .cons) :
+    ¬ ((getDom (lexEnforce x y q s).2.1 q).1 = (getDom (lexEnforce x y q s).2.1 q).2 ∧
+       (getDom (lexEnforce x y q s).2.2 q).1 = (getDom (lexEnforce x y q s).2.2 q).2) := by
+  revert h
+  cases s <;> simp only [lexEnforce, ↓reduceIte, Bool.false_eq_true] <;>
+  · split
+    · intro h; simp at h
+    · split
+      · intro h; simp at h
+      · intro h
+        simp only [getDom_set, hqx, hqy, and_self, ↓reduceIte]
+        simp at h
+        omega
+
+/-! ### states 2, 3, 4: what the suffix after `q` tells -/
+
+/-- every pair of the box is `≤_lex` from position `i` on -/
+def AllLe (x y : Box) (i : Nat) : Prop :=
+  ∀ xs ys, inBox xs x → inBox ys y → lexLe (xs.drop i) (ys.drop i)
+/-- no pair of the box is `≤_lex` from position `i` on -/
+def NoneLe (x y : Box) (i : Nat) : Prop :=
+  ∀ xs ys, inBox xs x → inBox ys y → ¬ lexLe (xs.drop i) (ys.drop i)
+/-- some position is not instantiated on both sides -/
+def NG (n : Nat) (x y : Box) : Prop :=
+  ∃ j, j < n ∧ ¬ ((getDom x j).1 = (getDom x j).2 ∧ (getDom y j).1 = (getDom y j).2)
+
+theorem allLe_end {x y : Box} {n : Nat} (hx : x.length = n) : AllLe x y n :=
+  fun _ _ h1 _ => lexLe_drop_ge (by rw [inBox_length h1, hx]; exact Nat.le_refl _)
+
+theorem allLe_lt {x y : Box} {n i : Nat} (hx : x.length = n) (hy : y.length = n) (hi : i < n)
+    (h : (getDom x i).2 < (getDom y i).1) : AllLe x y i := by
+  intro xs ys h1 h2
+  have a := inBox_get i h1 (by omega); have b := inBox_get i h2 (by omega)
+  rw [lexLe_drop_iff (by rw [inBox_length h1]; omega) (by rw [inBox_length h2]; omega)]
+  left; omega
+
+theorem allLe_step {x y : Box} {n i : Nat} (hx : x.length = n) (hy : y.length = n) (hi : i < n)
+    (h : (getDom x i).2 ≤ (getDom y i).1) (hn : AllLe x y (i + 1)) : AllLe x y i := by
+  intro xs ys h1 h2
+  have a := inBox_get i h1 (by omega); have b := inBox_get i h2 (by omega)
+  rw [lexLe_drop_iff (by rw [inBox_length h1]; omega) (by rw [inBox_length h2]; omega)]
+  have := hn xs ys h1 h2
+  by_cases e : getI xs i = getI ys i
+  · right; exact ⟨e, this⟩
+  · left; omega
+
+theorem noneLe_gt {x y : Box} {n i : Nat} (hx : x.length = n) (hy : y.length = n) (hi : i < n)
+    (h : (getDom x i).1 > (getDom y i).2) : NoneLe x y i := by
+  intro xs ys h1 h2
+  have a := inBox_get i h1 (by omega); have b := inBox_get i h2 (by omega)
+  rw [lexLe_drop_iff (by rw [inBox_length h1]; omega) (by rw [inBox_length h2]; omega)]
+  omega
+
+theorem noneLe_step {x y : Box} {n i : Nat} (hx : x.length = n) (hy : y.length = n) (hi : i < n)
+    (h : (getDom x i).1 ≥ (getDom y i).2) (hn : NoneLe x y (i + 1)) : NoneLe x y i := by
+  intro xs ys h1 h2
+  have a := inBox_get i h1 (by omega); have b := inBox_get i h2 (by omega)
+  rw [lexLe_drop_iff (by rw [inBox_length h1]; omega) (by rw [inBox_length h2]; omega)]
+  have := hn xs ys h1 h2
+  intro h; rcases h with h | ⟨_, h⟩
+  · omega
+  · exact this h
+
+theorem state4_spec (x y : Box) (n q : Nat) (hx : x.length = n) (hy : y.length = n) :
+    ∀ fuel i, lexState4 x y n q fuel i = (.cons, x, y) ∨
+      (lexState4 x y n q fuel i = lexEnforce x y q true ∧ NoneLe x y i)
+  | 0, _ => Or.inl rfl
+  | fuel + 1, i => by
+    simp only [lexState4]
+    split
+    · rename_i h
+      rcases state4_spec x y n q hx hy fuel (i + 1) with h' | ⟨h', hn⟩
+      · exact Or.inl h'
+      · exact Or.inr ⟨h', noneLe_step hx hy h.1 (by omega) hn⟩
+    · split
+      · rename_i h; exact Or.inr ⟨rfl, noneLe_gt hx hy h.1 h.2⟩
+      · exact Or.inl rfl
+
+theorem state3_spec (x y : Box) (n q : Nat) (hx : x.length = n) (hy : y.length = n) :
+    ∀ fuel i, i ≤ n → lexState3 x y n q fuel i = (.cons, x, y) ∨
+      (lexState3 x y n q fuel i = lexEnforce x y q false ∧ AllLe x y i)
+  | 0, _, _ => Or.inl rfl
+  | fuel + 1, i, hi => by
+    simp only [lexState3]
+    split
+    · rename_i h
+      rcases state3_spec x y n q hx hy fuel (i + 1) (by omega) with h' | ⟨h', hn⟩
+      · exact Or.inl h'
+      · exact Or.inr ⟨h', allLe_step hx hy h.1 (by omega) hn⟩
+    · split
+      · rename_i h1 h
+        refine Or.inr ⟨rfl, ?_⟩
+        rcases h with h | h
+        · subst h; exact allLe_end hx
+        · by_cases e : i = n
+          · subst e; exact allLe_end hx
+          · exact allLe_lt hx hy (by omega) h
+      · exact Or.inl rfl
+
+theorem state2_spec (x y : Box) (n q : Nat) (hx : x.length = n) (hy : y.length = n) :
+    ∀ fuel i, i ≤ n → n + 1 ≤ fuel + i →
+      (lexState2 x y n q fuel i = (.cons, x, y) ∧ NG n x y) ∨
+      (lexState2 x y n q fuel i = lexEnforce x y q false ∧ AllLe x y i) ∨
+      (lexState2 x y n q fuel i = lexEnforce x y q true ∧ NoneLe x y i)
+  | 0, _, _, _ => by omega
+  | fuel + 1, i, hi, hf => by
+    simp only [lexState2]
+    split
+    · rename_i h
+      rcases state2_spec x y n q hx hy fuel (i + 1) (by omega) (by omega) with h' | ⟨h', hn⟩ | ⟨h', hn⟩
+      · exact Or.inl h'
+      · exact Or.inr (Or.inl ⟨h', allLe_step hx hy h.1 (by omega) hn⟩)
+      · exact Or.inr (Or.inr ⟨h', noneLe_step hx hy h.1 (by omega) hn⟩)
+    · rename_i h0
+      split
+      · rename_i h
+        refine Or.inr (Or.inl ⟨rfl, ?_⟩)
+        rcases h with h | h
+        · subst h; exact allLe_end hx
+        · by_cases e : i = n
+          · subst e; exact allLe_end hx
+          · exact allLe_lt hx hy (by omega) h
+      · rename_i h1
+        have hin : i < n := by omega
+        split
+        · rename_i h; exact Or.inr (Or.inr ⟨rfl, noneLe_gt hx hy hin h⟩)
+        · rename_i h2
+          have hng : NG n x y := ⟨i, hin, by omega⟩
+          split
+          · rename_i h
+            rcases state3_spec x y n q hx hy (n + 1) (i + 1) (by omega) with h' | ⟨h', hn⟩
+            · exact Or.inl ⟨h', hng⟩
+            · exact Or.inr (Or.inl ⟨h', allLe_step hx hy hin (by omega) hn⟩)
+          · split
+            · rename_i h
+              rcases state4_spec x y n q hx hy (n + 1) (i + 1) with h' | ⟨h', hn⟩
+              · exact Or.inl ⟨h', hng⟩
+              · exact Or.inr (Or.inr ⟨h', noneLe_step hx hy hin (by omega) hn⟩)
+            · exact Or.inl ⟨rfl, hng⟩
+
+/-! ### state 1 -/
+
+/-- the pruning `x_i ≤ y_i` done by state 1 (both when it continues and when it hands over) -/
+theorem tighten_spec {x y : Box} {n i : Nat} (hx : x.length = n) (hy : y.length = n) (hi : i < n)
+    (hnx : x.Nonempty) (hny : y.Nonempty)
+    (c1 : ¬ min (getDom x i).2 (getDom y i).2 < (getDom x i).1)
+    (c2 : ¬ (getDom y i).2 < max (getDom y i).1 (getDom x i).1) :
+    let x' := x.set i ((getDom x i).1, min (getDom x i).2 (getDom y i).2)
+    let y' := y.set i (max (getDom y i).1 (getDom x i).1, (getDom y i).2)
+    Box.le x' x ∧ Box.le y' y ∧ Box.Nonempty x' ∧ Box.Nonempty y' ∧
+    (∀ xs ys, inBox xs x → inBox ys y → getI xs i ≤ getI ys i → inBox xs x' ∧ inBox ys y') := by
+  refine ⟨le_set ?_ ?_, le_set ?_ ?_, nonempty_set hnx ?_, nonempty_set hny ?_, fun xs ys h1 h2 hp => ?_⟩
+  · simp
+  · simp; omega
+  · simp; omega
+  · simp
+  · simp at c1 ⊢; omega
+  · simp at c2 ⊢; omega
+  · have := inBox_get i h1 (by omega); have := inBox_get i h2 (by omega)
+    refine ⟨inBox_set h1 ?_, inBox_set h2 ?_⟩
+    · simp; omega
+    · simp; omega
+
+theorem not_lexLe_of_gt {x y : Box} {n i : Nat} (hx : x.length = n) (hy : y.length = n) (hi : i < n)
+    (h : (getDom y i).2 < (getDom x i).1) : NoneLe x y i := noneLe_gt hx hy hi h
+
+/-- state 1 hands over to state 2 with `q = i`, after having enforced `x_i ≤ y_i` -/
+theorem state1_handover {x y x' y' : Box} {n i : Nat} {r : Status × Box × Box}
+    (hx : x.length = n) (hy : y.length = n) (hin : i < n)
+    (lx : Box.le x' x) (ly : Box.le y' y) (nx : x'.Nonempty) (ny : y'.Nonempty)
+    (keep : ∀ xs ys, inBox xs x → inBox ys y → getI xs i ≤ getI ys i → inBox xs x' ∧ inBox ys y')
+    (hr : lexState2 x' y' n i (n + 1) (i + 1) = r) :
+    SoundRes (fun xs ys => lexLe (xs.drop i) (ys.drop i)) x y r ∧
+    (r.1 = .ent → ∀ xs ys, inBox xs r.2.1 → inBox ys r.2.2 → lexLe (xs.drop i) (ys.drop i)) ∧
+    (r.1 = .cons → NG n r.2.1 r.2.2) := by
+  have hx' : x'.length = n := by rw [Box.le_length lx, hx]
+  have hy' : y'.length = n := by rw [Box.le_length ly, hy]
+  -- what `lexLe` from `i` means on the box
+  have split_i : ∀ xs ys, inBox xs x → inBox ys y →
+      (lexLe (xs.drop i) (ys.drop i) ↔
+        getI xs i < getI ys i ∨ (getI xs i = getI ys i ∧ lexLe (xs.drop (i + 1)) (ys.drop (i + 1)))) :=
+    fun xs ys h1 h2 => lexLe_drop_iff (by rw [inBox_length h1]; omega) (by rw [inBox_length h2]; omega)
+  rcases state2_spec x' y' n i hx' hy' (n + 1) (i + 1) (by omega) (by omega) with ⟨e, hng⟩ | ⟨e, hal⟩ | ⟨e, hno⟩
+  · -- nothing more is known
+    rw [hr] at e; subst e
+    refine ⟨(SoundRes.same (P := fun _ _ => True) (by simp) nx ny).trans lx ly (fun xs ys h1 h2 hp => ?_),
+      fun h => by simp at h, fun _ => hng⟩
+    have := (split_i xs ys h1 h2).mp hp
+    obtain ⟨k1, k2⟩ := keep xs ys h1 h2 (by omega)
+    exact ⟨k1, k2, trivial⟩
+  · -- suffix certainly ≤ : x_i ≤ y_i
+    rw [hr] at e; subst e
+    have hs := lexEnforce_sound x' y' i false (by omega) (by omega) nx ny
+    refine ⟨hs.trans lx ly (fun xs ys h1 h2 hp => ?_), fun hst xs ys h1 h2 => ?_,
+      fun hst => ⟨i, hin, lexEnforce_cons x' y' i false (by omega) (by omega) hst⟩⟩
+    · have := (split_i xs ys h1 h2).mp hp
+      obtain ⟨k1, k2⟩ := keep xs ys h1 h2 (by omega)
+      exact ⟨k1, k2, by simp [kOf]; omega⟩
+    · have he := lexEnforce_ent x' y' i false (by omega) (by omega) hst xs ys h1 h2
+      obtain ⟨l1, l2, _⟩ := hs.ok (by rw [hst]; simp)
+      have h1' := inBox_of_le h1 l1; have h2' := inBox_of_le h2 l2
+      rw [split_i xs ys (inBox_of_le h1' lx) (inBox_of_le h2' ly)]
+      have := hal xs ys h1' h2'
+      simp [kOf] at he
+      by_cases e : getI xs i = getI ys i
+      · exact Or.inr ⟨e, this⟩
+      · left; omega
+  · -- suffix certainly > : x_i < y_i
+    rw [hr] at e; subst e
+    have hs := lexEnforce_sound x' y' i true (by omega) (by omega) nx ny
+    refine ⟨hs.trans lx ly (fun xs ys h1 h2 hp => ?_), fun hst xs ys h1 h2 => ?_,
+      fun hst => ⟨i, hin, lexEnforce_cons x' y' i true (by omega) (by omega) hst⟩⟩
+    · have hp' := (split_i xs ys h1 h2).mp hp
+      have hlt : getI xs i < getI ys i := by
+        rcases hp' with hp' | ⟨e, hp'⟩
+        · exact hp'
+        · obtain ⟨k1, k2⟩ := keep xs ys h1 h2 (by omega)
+          exact absurd hp' (hno xs ys k1 k2)
+      obtain ⟨k1, k2⟩ := keep xs ys h1 h2 (by omega)
+      exact ⟨k1, k2, by simp [kOf]; omega⟩
+    · have he := lexEnforce_ent x' y' i true (by omega) (by omega) hst xs ys h1 h2
+      obtain ⟨l1, l2, _⟩ := hs.ok (by rw [hst]; simp)
+      have h1' := inBox_of_le h1 l1; have h2' := inBox_of_le h2 l2
+      rw [split_i xs ys (inBox_of_le h1' lx) (inBox_of_le h2' ly)]
+      simp [kOf] at he
+      left; omega
+
+theorem state1_spec (n : Nat) : ∀ (fuel i : Nat) (x y : Box) (r : Status × Box × Box),
+    x.length = n → y.length = n → x.Nonempty → y.Nonempty → i ≤ n → lexState1 n fuel i x y = r →
+    SoundRes (fun xs ys => lexLe (xs.drop i) (ys.drop i)) x y r ∧
+    (r.1 = .ent → ∀ xs ys, inBox xs r.2.1 → inBox ys r.2.2 → lexLe (xs.drop i) (ys.drop i)) ∧
+    (n + 1 ≤ fuel + i → r.1 = .cons → NG n r.2.1 r.2.2)
+  | 0, i, x, y, r, hx, hy, hnx, hny, hi, hr => by
+    simp only [lexState1] at hr; subst hr
+    exact ⟨SoundRes.same (by simp) hnx hny, fun h => by simp at h, fun h => by omega⟩
+  | fuel + 1, i, x, y, r, hx, hy, hnx, hny, hi, hr => by
+    simp only [lexState1] at hr
+    have hxi := fun (h : i < n) => Box.nonempty_get hnx i (by omega)
+    have hyi := fun (h : i < n) => Box.nonempty_get hny i (by omega)
+    split at hr
+    · -- x_i.min = y_i.max : x_i = y_i is forced
+      rename_i h
+      have hxi := hxi h.1; have hyi := hyi h.1
+      split at hr
+      · rename_i c1; subst hr
+        refine ⟨⟨fun h => by simp at h, fun _ => not_lexLe_of_gt hx hy h.1 (by omega)⟩,
+          fun h => by simp at h, fun _ h => by simp at h⟩
+      · rename_i c1
+        split at hr
+        · rename_i c2; subst hr
+          refine ⟨⟨fun h => by simp at h, fun _ => not_lexLe_of_gt hx hy h.1 (by omega)⟩,
+            fun h => by simp at h, fun _ h => by simp at h⟩
+        · rename_i c2
+          obtain ⟨lx, ly, nx, ny, keep⟩ := tighten_spec hx hy h.1 hnx hny c1 c2
+          obtain ⟨ih1, ih2, ih3⟩ := state1_spec n fuel (i + 1) _ _ r (by simpa using hx) (by simpa using hy)
+            nx ny (by omega) hr
+          refine ⟨ih1.trans lx ly (fun xs ys h1 h2 hp => ?_), fun hst xs ys h1 h2 => ?_, fun hf => ih3 (by omega)⟩
+          · have a := inBox_get i h1 (by omega); have b := inBox_get i h2 (by omega)
+            rw [lexLe_drop_iff (by rw [inBox_length h1]; omega) (by rw [inBox_length h2]; omega)] at hp
+            have hp' : getI xs i = getI ys i ∧ lexLe (xs.drop (i + 1)) (ys.drop (i + 1)) := by
+              rcases hp with hp | hp
+              · omega
+              · exact hp
+            obtain ⟨k1, k2⟩ := keep xs ys h1 h2 (by omega)
+            exact ⟨k1, k2, hp'.2⟩
+          · obtain ⟨l1, l2, _⟩ := ih1.ok (by rw [hst]; simp)
+            have h1' := inBox_of_le h1 l1; have h2' := inBox_of_le h2 l2
+            have a := inBox_get i h1' (by simpa using (by omega : i < x.length))
+            have b := inBox_get i h2' (by simpa using (by omega : i < y.length))
+            simp only [getDom_set, (by omega : i < x.length), (by omega : i < y.length), and_self, ↓reduceIte] at a b
+            rw [lexLe_drop_iff (by rw [inBox_length h1, Box.le_length l1]; simp; omega)
+              (by rw [inBox_length h2, Box.le_length l2]; simp; omega)]
+            right
+            exact ⟨by omega, ih2 hst xs ys h1 h2⟩
+    · rename_i h0
+      split at hr
+      · -- entailed
+        rename_i h; subst hr
+        refine ⟨SoundRes.same (by simp) hnx hny, fun _ => ?_, fun _ h => by simp at h⟩
+        rcases h with h | h
+        · subst h; exact allLe_end hx
+        · by_cases e : i = n
+          · subst e; exact allLe_end hx
+          · exact allLe_lt hx hy (by omega) h
+      · rename_i h1
+        have hin : i < n := by omega
+        have hxi := hxi hin; have hyi := hyi hin
+        split at hr
+        · rename_i c1; subst hr
+          refine ⟨⟨fun h => by simp at h, fun _ => not_lexLe_of_gt hx hy hin (by omega)⟩,
+            fun h => by simp at h, fun _ h => by simp at h⟩
+        · rename_i c1
+          split at hr
+          · rename_i c2; subst hr
+            refine ⟨⟨fun h => by simp at h, fun _ => not_lexLe_of_gt hx hy hin (by omega)⟩,
+              fun h => by simp at h, fun _ h => by simp at h⟩
+          · rename_i c2
+            obtain ⟨lx, ly, nx, ny, keep⟩ := tighten_spec hx hy hin hnx hny c1 c2
+            obtain ⟨a, b, c⟩ := state1_handover hx hy hin lx ly nx ny keep hr
+            exact ⟨a, b, fun _ => c⟩
+
 end Lex
+
+/-! ### the local contracts -/
+
+open Lex
+
+theorem runAlg_lexLeq (ps : List Int) (B : Box) : runAlg .lexLeq ps B = .ok (lexLeq ps B) := rfl
+
+namespace Lex
+
+/-- everything known about one call, in terms of the two halves -/
+theorem lexLeq_spec (B : Box) (hc : Contract .lexLeq [] B) (hne : B.Nonempty) :
+    let n := B.length / 2
+    let r := lexState1 n (n + 1) 0 (B.take n) (B.drop n)
+    (B.take n).length = n ∧ (B.drop n).length = n ∧
+    SoundRes (fun xs ys => lexLe xs ys) (B.take n) (B.drop n) r ∧
+    (r.1 = .ent → ∀ xs ys, inBox xs r.2.1 → inBox ys r.2.2 → lexLe xs ys) ∧
+    (r.1 = .cons → NG n r.2.1 r.2.2) := by
+  intro n r
+  simp only [Contract] at hc
+  have hx : (B.take n).length = n := by simp [n]; omega
+  have hy : (B.drop n).length = n := by simp [n]; omega
+  obtain ⟨a, b, c⟩ := state1_spec n (n + 1) 0 (B.take n) (B.drop n) r hx hy
+    (nonempty_take n hne) (nonempty_drop n hne) (by omega) rfl
+  refine ⟨hx, hy, ?_, ?_, fun h => c (by omega) h⟩
+  · simpa using a
+  · simpa using b
+
+theorem rel_lexLeq_iff {ps : List Int} {t : List Int} {B : Box} (h : inBox t B) :
+    rel .lexLeq ps t ↔ lexLe (t.take (B.length / 2)) (t.drop (B.length / 2)) := by
+  simp only [rel, inBox_length h]
+
+theorem getDom_pointBox_ground (t : List Int) (k : Nat) :
+    (getDom (pointBox t) k).1 = (getDom (pointBox t) k).2 := by
+  unfold getDom pointBox
+  by_cases h : k < t.length
+  · simp [List.getD, h]
+  · simp [List.getD, h]
+
+theorem getDom_append_left {X Y : Box} {j : Nat} (h : j < X.length) : getDom (X ++ Y) j = getDom X j := by
+  unfold getDom; simp [List.getD, List.getElem?_append_left h]
+
+theorem getDom_append_right {X Y : Box} (j : Nat) : getDom (X ++ Y) (X.length + j) = getDom Y j := by
+  unfold getDom; simp [List.getD, List.getElem?_append_right]
+
+end Lex
+
+theorem sound_lexLeq : Sound .lexLeq := by
+  intro ps B st B' hc hne hrun
+  rw [runAlg_lexLeq] at hrun
+  injection hrun with hrun
+  obtain ⟨hx, hy, hs, _, _⟩ := lexLeq_spec B hc hne
+  simp only [lexLeq] at hrun
+  injection hrun with h1 h2
+  subst h1
+  refine ⟨fun hst => ?_, fun hst t ht hrel => ?_⟩
+  · obtain ⟨l1, l2, n1, n2, keep⟩ := hs.ok hst
+    subst h2
+    refine ⟨?_, nonempty_append n1 n2, fun t ht hrel => ?_⟩
+    · have := le_append l1 l2
+      rwa [List.take_append_drop] at this
+    · obtain ⟨t1, t2⟩ := inBox_take_drop (B.length / 2) ht
+      obtain ⟨k1, k2⟩ := keep _ _ t1 t2 ((rel_lexLeq_iff ht).mp hrel)
+      have := inBox_append k1 k2
+      rwa [List.take_append_drop] at this
+  · obtain ⟨t1, t2⟩ := inBox_take_drop (B.length / 2) ht
+    exact hs.inc hst _ _ t1 t2 ((rel_lexLeq_iff ht).mp hrel)
+
+theorem entailOk_lexLeq : EntailOk .lexLeq := by
+  intro ps B B' hc hne hrun t ht
+  have hsound := (sound_lexLeq ps B .ent B' hc hne hrun).1 (by simp)
+  rw [runAlg_lexLeq] at hrun
+  injection hrun with hrun
+  obtain ⟨hx, hy, hs, he, _⟩ := lexLeq_spec B hc hne
+  simp only [lexLeq] at hrun
+  injection hrun with h1 h2
+  obtain ⟨l1, l2, _⟩ := hs.ok (by rw [h1]; simp)
+  have hlx := Box.le_length l1; rw [hx] at hlx
+  have htB := inBox_of_le ht hsound.1
+  rw [rel_lexLeq_iff htB]
+  subst h2
+  obtain ⟨t1, t2⟩ := inBox_take_drop (B.length / 2) ht
+  rw [List.take_left' hlx] at t1
+  rw [List.drop_left' hlx] at t2
+  exact he h1 _ _ t1 t2
+
+theorem groundOk_lexLeq : GroundOk .lexLeq := by
+  intro ps B st B' t hc hne hrun hst hB'
+  simp only [relW]
+  cases st with
+  | inc => exact absurd rfl hst
+  | ent => exact entailOk_lexLeq ps B B' hc hne hrun t (hB' ▸ inBox_pointBox_self t)
+  | cons =>
+    exfalso
+    rw [runAlg_lexLeq] at hrun
+    injection hrun with hrun
+    obtain ⟨hx, hy, hs, _, hng⟩ := lexLeq_spec B hc hne
+    simp only [lexLeq] at hrun
+    injection hrun with h1 h2
+    obtain ⟨l1, l2, _⟩ := hs.ok (by rw [h1]; simp)
+    have hlx := Box.le_length l1; rw [hx] at hlx
+    obtain ⟨j, hj, hnot⟩ := hng h1
+    apply hnot
+    rw [← getDom_append_left (Y := (lexState1 (B.length / 2) (B.length / 2 + 1) 0 (B.take (B.length / 2)) (B.drop (B.length / 2))).2.2) (by omega : j < _)]
+    have := getDom_append_right (X := (lexState1 (B.length / 2) (B.length / 2 + 1) 0 (B.take (B.length / 2)) (B.drop (B.length / 2))).2.1)
+      (Y := (lexState1 (B.length / 2) (B.length / 2 + 1) 0 (B.take (B.length / 2)) (B.drop (B.length / 2))).2.2) j
+    rw [← this, h2, hB']
+    exact ⟨getDom_pointBox_ground _ _, getDom_pointBox_ground _ _⟩
+
+theorem contractMono_lexLeq : ContractMono .lexLeq := by
+  intro ps B B' hc hle
+  simp only [Contract] at *
+  rw [Box.le_length hle]; exact hc
+
+theorem safe_lexLeq : Safe .lexLeq := fun ps B _ _ => ⟨_, runAlg_lexLeq ps B⟩
+
+/-- a mask that watches MIN and MAX everywhere: a quiet sub-box is the input itself -/
+theorem Lex.trigOk_of_minMax (a : Alg) (hs : Sound a) (hm : ∀ ps n k, maskAlg a ps n k = Ev.minMax) : TrigOk a := by
+  intro ps B st B' B'' hc hne hrun hst hle _ hq
+  have hB'B := ((hs ps B st B' hc hne hrun).1 hst).1
+  have hlen : B''.length = B.length := by rw [Box.le_length hle, Box.le_length hB'B]
+  have e : B'' = B := Box.ext_get hlen (fun k hk => by
+    have := hq k (by omega)
+    rw [hm] at this
+    exact eq_of_quiet_minMax this)
+  subst e
+  have e' : B' = B'' := Box.le_antisymm hB'B hle
+  subst e'
+  exact ⟨st, hrun, hst⟩
+
+theorem trigOk_lexLeq : TrigOk .lexLeq := Lex.trigOk_of_minMax .lexLeq sound_lexLeq (fun _ _ _ => rfl)
+
 end Nucs
